@@ -11,6 +11,131 @@ import (
 	"pgregory.net/rapid"
 )
 
+// misorderedLists compiles the schema with goyang and returns the lists whose entry name space
+// (direct data children, choice/case flattened, plus the children of config / state containers,
+// which compression hoists) satisfies keyMisorder: an independent recount of the class label.
+func misorderedLists(s *Schema) []string {
+	ms := yang.NewModules()
+	for _, n := range s.fileNames() {
+		if err := ms.Parse(s.Files[n], n); err != nil {
+			return nil
+		}
+	}
+	if errs := ms.Process(); len(errs) > 0 {
+		return nil
+	}
+	var out []string
+	var data func(e *yang.Entry, into map[string]*yang.Entry)
+	data = func(e *yang.Entry, into map[string]*yang.Entry) {
+		for n, c := range e.Dir {
+			if c.IsChoice() || c.IsCase() {
+				data(c, into)
+				continue
+			}
+			into[n] = c
+		}
+	}
+	var walk func(e *yang.Entry)
+	walk = func(e *yang.Entry) {
+		ch := map[string]*yang.Entry{}
+		data(e, ch)
+		if e.IsList() && e.Key != "" {
+			names := map[string]bool{}
+			for n, c := range ch {
+				names[n] = true
+				if n == "config" || n == "state" {
+					sub := map[string]*yang.Entry{}
+					data(c, sub)
+					for x := range sub {
+						names[x] = true
+					}
+				}
+			}
+			var all []string
+			for n := range names {
+				all = append(all, n)
+			}
+			if keyMisorder(all, strings.Fields(e.Key)) {
+				out = append(out, e.Path())
+			}
+		}
+		for _, c := range ch {
+			walk(c)
+		}
+	}
+	seen := map[string]bool{}
+	for _, m := range ms.Modules {
+		if seen[m.Name] {
+			continue
+		}
+		seen[m.Name] = true
+		walk(yang.ToEntry(m))
+	}
+	sort.Strings(out)
+	return out
+}
+
+// structNameKeyLists: top-level <wrapper>/<list> pairs one of whose keys has the CamelCase name of the
+// list (the name of the entry struct under compression): independent recount of key-struct-name.
+func structNameKeyLists(s *Schema) []string {
+	ms := yang.NewModules()
+	for _, n := range s.fileNames() {
+		if err := ms.Parse(s.Files[n], n); err != nil {
+			return nil
+		}
+	}
+	if errs := ms.Process(); len(errs) > 0 {
+		return nil
+	}
+	var out []string
+	seen := map[string]bool{}
+	for _, m := range ms.Modules {
+		if seen[m.Name] {
+			continue
+		}
+		seen[m.Name] = true
+		for _, w := range yang.ToEntry(m).Dir {
+			if !w.IsContainer() {
+				continue
+			}
+			for _, l := range w.Dir {
+				if !l.IsList() {
+					continue
+				}
+				for _, k := range strings.Fields(l.Key) {
+					if yang.CamelCase(k) == yang.CamelCase(l.Name) {
+						out = append(out, l.Path())
+					}
+				}
+			}
+		}
+	}
+	sort.Strings(out)
+	return out
+}
+
+func TestKeyMisorder(t *testing.T) {
+	for _, c := range []struct {
+		names, keys []string
+		want        bool
+	}{
+		{[]string{"key", "Key"}, []string{"key", "Key"}, true},
+		{[]string{"key", "Key"}, []string{"Key", "key"}, false},
+		{[]string{"policy", "Policy", "name"}, []string{"policy"}, true},
+		{[]string{"policy", "Policy", "name"}, []string{"Policy"}, false},
+		{[]string{"a-b", "a_b", "x"}, []string{"a-b", "a_b"}, false},
+		{[]string{"if-name", "if-Name"}, []string{"if-name", "if-Name"}, false}, // If_Name: no clash
+		{[]string{"vlanId", "vlan-id"}, []string{"vlanId", "vlan-id"}, true},
+		{[]string{"vlanId", "vlan-id"}, []string{"vlan-id", "vlanId"}, false},
+		{[]string{"kind", "Kind", "State", "state", "config"}, []string{"State", "kind", "Kind"}, true},
+		{[]string{"a", "b"}, []string{"b", "a"}, false},
+	} {
+		if got := keyMisorder(c.names, c.keys); got != c.want {
+			t.Errorf("keyMisorder(%v, %v) = %v, want %v", c.names, c.keys, got, c.want)
+		}
+	}
+}
+
 // Accepts reports whether goyang parses and processes the schema (the soundness contract).
 func accepts(s *Schema) []error {
 	ms := yang.NewModules()
@@ -44,7 +169,8 @@ func TestYanggenSelf(t *testing.T) {
 	modes := []Options{
 		{}, {Hostile: true}, {OpenConfigStyle: true}, {OpenConfigStyle: true, Hostile: true},
 		{Small: true, MaxModules: 1}, {Small: true, OpenConfigStyle: true, MaxModules: 2},
-		{Hostile: true, Excluded: map[string]bool{ClEnumUNSET: true, ClKeyKey: true, ClIdentSameName: true}},
+		{Hostile: true, Excluded: map[string]bool{ClEnumUNSET: true, ClKeyKey: true, ClKeyOrder: true, ClIdentSameName: true}},
+		{Hostile: true, OpenConfigStyle: true, Excluded: map[string]bool{ClKeyKey: true, ClKeyOrder: true, ClKeyStructName: true}},
 	}
 	rapid.Check(t, func(rt *rapid.T) {
 		o := modes[rapid.IntRange(0, len(modes)-1).Draw(rt, "mode")]
@@ -67,6 +193,16 @@ func TestYanggenSelf(t *testing.T) {
 		}
 		if len(s.Roots) == 0 {
 			rt.Fatalf("no roots")
+		}
+		// the label of the key-misorder class is complete: a list of the compiled schema has the shape => the class
+		// was drawn (the converse fails for lists inside groupings that are never used)
+		if mis := misorderedLists(s); len(mis) > 0 && s.Features["collision:"+ClKeyOrder] == 0 {
+			rt.Fatalf("class %s: label count %d, lists with the shape in the compiled schema: %v\n%s", ClKeyOrder, s.Features["collision:"+ClKeyOrder], mis, s.Key())
+		}
+		if o.OpenConfigStyle {
+			if ls := structNameKeyLists(s); len(ls) > 0 && s.Features["collision:"+ClKeyStructName] == 0 {
+				rt.Fatalf("class %s not labelled but present in the compiled schema: %v\n%s", ClKeyStructName, ls, s.Key())
+			}
 		}
 		if errs := accepts(s); len(errs) > 0 {
 			rejected++
